@@ -1,6 +1,6 @@
 (* C10 — card words follow the documented layout; exactly 52 words are cards. *)
 From Coq Require Import String.
-From CKC Require Import Base.Prelude Base.Reflect Spec.Layout Model.Card Proofs.CardFacts.
+From CKC Require Import Base.Prelude Base.Reflect Spec.Layout Model.Card Proofs.CardFacts Proofs.CreateFacts.
 From CKC Require Import Gen.Consts Gen.Enums Gen.Maps Gen.Scan Gen.Decks.
 Open Scope N_scope.
 
@@ -13,45 +13,10 @@ Proof. repeat split; vm_compute; reflexivity. Qed.
 Lemma deck_ok : POKER_DECK = SPEC_DECK.
 Proof. vm_compute. reflexivity. Qed.
 
-Definition create_spec (ri si : N) : N :=
-  match spec_rank_of_variant ri, spec_suit_of_variant si with
-  | Some r, Some s => layout r s
-  | _, _ => 0
-  end.
 
-Lemma create_ok ri si :
-  ri < lenN CardRank_NAMES -> si < lenN CardSuit_NAMES ->
-  create ri si = create_spec ri si /\ create ri si = nthN (nthN CREATE_GRID ri []) si 0.
-Proof.
-  intros Hr Hs.
-  pose proof (forallb_N_range2
-    (fun ri si => (create ri si =? create_spec ri si) && (create ri si =? nthN (nthN CREATE_GRID ri []) si 0))
-    (lenN CardRank_NAMES) (lenN CardSuit_NAMES) ltac:(vm_compute; reflexivity) ri si Hr Hs) as H.
-  apply andb_true_iff in H. rewrite !N.eqb_eq in H. exact H.
-Qed.
 
 (* the enumerations are exactly the 13 ranks / 4 suits plus one blank each *)
-Lemma variants_ok :
-  lenN CardRank_NAMES = 14 /\ lenN CardSuit_NAMES = 5 /\
-  (forall r, r < 13 -> spec_rank_of_variant (rank_variant r) = Some r) /\
-  (forall s, s < 4 -> spec_suit_of_variant (suit_variant s) = Some s) /\
-  spec_rank_of_variant RANK_BLANK = None /\ spec_suit_of_variant SUIT_BLANK = None /\
-  RANK_BLANK < 14 /\ SUIT_BLANK < 5.
-Proof.
-  repeat split; try (vm_compute; reflexivity).
-  - intros r Hr.
-    pose proof (forallb_N_range (fun r => match spec_rank_of_variant (rank_variant r) with
-                                          | Some x => x =? r | None => false end) 13
-                  ltac:(vm_compute; reflexivity) r Hr) as H.
-    cbv beta in H. destruct (spec_rank_of_variant (rank_variant r)); [|discriminate].
-    apply N.eqb_eq in H. now subst.
-  - intros s Hs.
-    pose proof (forallb_N_range (fun s => match spec_suit_of_variant (suit_variant s) with
-                                          | Some x => x =? s | None => false end) 4
-                  ltac:(vm_compute; reflexivity) s Hs) as H.
-    cbv beta in H. destruct (spec_suit_of_variant (suit_variant s)); [|discriminate].
-    apply N.eqb_eq in H. now subst.
-Qed.
+
 
 Lemma accessors_ok r s :
   r < 13 -> s < 4 ->
